@@ -55,6 +55,20 @@ def mutate(rng, prob, kw, d):
         kw["rhoend"] = rb / r0
         kw["maxfun"] = int(rng.integers(150, 300))
         d.update(rhoend=kw["rhoend"], maxfun=kw["maxfun"], small_alpha1=a1)
+    if rng.random() < 0.1 and not kw.get("projections") and "h" not in kw:
+        # extra regression steps (geometry or random 'momentum' points) with a relative tolerance that the run meets at SOME
+        # evaluation: when 'sufficiently small' is detected at an extra point, that point must be what is returned (seeded C10_12)
+        kw["npt"] = 2 * prob["n"] + 1
+        up["regression.num_extra_steps"] = int(rng.integers(1, 3))
+        up["regression.momentum_extra_steps"] = bool(rng.random() < 0.7)
+        up["model.rel_tol"] = float(rng.choice([0.05, 0.2, 0.5]))
+        for k in ("growing.ndirs_initial", "growing.num_new_dirns_each_iter", "init.random_initial_directions", "init.run_in_parallel"):
+            up.pop(k, None)
+        kw["maxfun"] = int(rng.integers(40, 120))
+        d.update(npt=kw["npt"], regression=up["regression.num_extra_steps"], momentum=up["regression.momentum_extra_steps"],
+                 maxfun=kw["maxfun"], tol=(up.get("model.abs_tol", 1e-12), up["model.rel_tol"]))
+        d.pop("growing", None)
+        d.pop("randinit", None)
     d["user_params"] = dict(up)
 
 
@@ -99,7 +113,7 @@ def search(ctx):
         for sig, what in oracle(t, d, kw):
             ctx.fail(sig, what, {"seed": seed, "config": ss.describe(d), "fault": fault})
     dfols = core.import_dfols()
-    for sig, what, rpl in planted_runs(ctx, dfols):
+    for sig, what, rpl in planted_runs(ctx, dfols) + last_eval_faults(ctx, dfols):
         ctx.fail(sig, what, rpl)
     # the all-non-finite case, always exercised (recorded finding)
     import trace as tr
@@ -164,9 +178,60 @@ def planted_runs(ctx, dfols, only=None):
     return out
 
 
+def last_eval_faults(ctx, dfols, only=None):
+    """a bad value at exactly the LAST evaluation of a run that ends because rho reached rhoend (the final 'check xnew' evaluation of
+    the safety step, saved and followed by the success exit): success must still come with the finite best point (seeded change
+    C10_11 returned the saved NaN point)"""
+    import trace as tr
+    import problems
+    stats = {"probes": 0, "ended_by_rhoend": 0, "faulted": 0}
+    out = []
+    for i in range(ctx.scale(12, 60)):
+        if only is not None and i != only[0]:
+            continue
+        rng = np.random.default_rng([ctx.seed, 1012, i])
+        prob = problems.rand_problem(rng)
+        rb = 0.1 * max(float(np.max(np.abs(prob["x0"]))), 1.0)
+        kw = dict(maxfun=300, rhobeg=rb, rhoend=rb * 10.0 ** (-rng.uniform(1.0, 3.0)))
+        if rng.random() < 0.4:
+            kw["npt"] = 2 * prob["n"] + 1
+        d = {"user_params": {}, "maxfun": 300, "last_eval_fault": True}
+        t0 = tr.traced_solve(dfols, prob["f"], prob["x0"], alarm=20, **kw)
+        stats["probes"] += 1
+        if t0.exception is not None or t0.result is None or tr.msg_class(str(t0.result.msg)) != "rhoend":
+            continue
+        stats["ended_by_rhoend"] += 1
+        nf = len(t0.calls)
+        for kind in ("nan", "inf", "huge"):
+            for k in (nf, nf - 1):
+                if only is not None and (k, kind) != (only[1], only[2]):
+                    continue
+                f = problems.faulty(prob["f"], k, kind)
+                t = tr.traced_solve(dfols, f, prob["x0"], alarm=20, **kw)
+                stats["faulted"] += 1
+                ctx.seen(("c10last", i, k, kind))
+                if t.exception is not None or t.result is None:
+                    continue
+                d2 = dict(d)
+                d2["fault"] = [k, kind]
+                for sig, what in oracle(t, d2, kw):
+                    out.append((sig, what, {"last_eval": [ctx.seed, 1012, i, k, kind], "config": ss.describe(d2)}))
+    ctx.cov["bad_value_at_the_last_evaluation"] = stats
+    return out
+
+
 def replay(payload):
     dfols = core.import_dfols()
     rp = payload.get("replay", {})
+    if "last_eval" in rp:
+        class _C:
+            seed = rp["last_eval"][0]
+            cov = {}
+            def scale(self, a, b): return rp["last_eval"][2] + 1
+            def seen(self, *a): pass
+        res = last_eval_faults(_C(), dfols, only=(rp["last_eval"][2], rp["last_eval"][3], rp["last_eval"][4]))
+        print("replay:", [(a, b) for a, b, _ in res] if res else "property holds on this input now")
+        return 1 if res else 0
     if "planted" in rp:
         class _C:
             seed = rp["planted"][0]
